@@ -441,7 +441,7 @@ func init() {
 				gts.Joined{gts.Range(1, 3), gts.Range(5, 7)}, gts.Complemented{Location: gts.Joined{gts.Range(1, 3), gts.Range(5, 7)}},
 			}
 			keys := []string{"gene", "CDS", "source"}
-			propsets := []string{"a=x", "a=y"}
+			propsets := []string{"a=x", "a=y", "a=x,z", "a=y,z"}
 			var singles []string
 			for _, l := range menu {
 				for _, k := range keys {
@@ -515,7 +515,7 @@ func init() {
 				done := r.ParallelFor(n*n, func(idx int) {
 					a, b := rs[idx/n], rs[idx%n]
 					for _, key := range []string{"gene", "source"} {
-						for _, p2 := range []string{"a=x", "a=y"} {
+						for _, p2 := range []string{"a=x", "a=y", "a=x,z;b=q", "a=y,z;b=q"} {
 							for _, comp := range []int{0, 1, 2} {
 								la, lb := gts.Location(a), gts.Location(b)
 								if comp >= 1 {
@@ -524,7 +524,11 @@ func init() {
 								if comp == 2 {
 									lb = gts.Complemented{Location: b}
 								}
-								c := c12Case{Kind: "table", L: 6, Feats: []string{key + "|" + locdom.Encode(la) + "|a=x", key + "|" + locdom.Encode(lb) + "|" + p2}}
+								p1 := "a=x"
+								if strings.Contains(p2, ",") {
+									p1 = "a=x,z;b=q"
+								}
+								c := c12Case{Kind: "table", L: 6, Feats: []string{key + "|" + locdom.Encode(la) + "|" + p1, key + "|" + locdom.Encode(lb) + "|" + p2}}
 								eval(c, true, 50)
 							}
 						}
